@@ -1064,6 +1064,12 @@ func ruleC14JoinSidesAdopted(c *Ctx) {
 								if strings.HasSuffix(name, "sync.WaitGroup).Wait") {
 									// which captured variable: the free variable bound to this side
 									at := NewTB().Of(ci.Common().Args[0]).String()
+									// ... or an element of a variadic parameter of the helper that holds the goroutine (`waitFor(nested ...*Query)`):
+									// the wait is made for every element of a range over the whole slice, and the call of the helper in the
+									// builder stores this side into the variadic array
+									if varargsHoldSide(ci.Common().Args[0], mc, f, side) {
+										waits = true
+									}
 									// ... or the parameter of the function literal that receives this side as the go statement's argument
 									for pi, prm := range mc.Fn.(*ssa.Function).Params {
 										if pi < len(g.Call.Args) && (strings.Contains(at, "p:"+prm.Name()+")") || strings.Contains(at, "(p:"+prm.Name()+")") || strings.Contains(at, "p:"+prm.Name()+".")) {
@@ -1468,4 +1474,102 @@ func ruleC14DrainAfterRun(c *Ctx) {
 		why = append(why, "no return path")
 	}
 	c.Check(len(why) == 0, "c14.drain-after-run", "(*Query).execAndPostProcess/run-once", c.P.Pos(post.Pos()), "the post-processors of an execution are out of the list when it returns", strings.Join(uniq(why), "; ")+": a second Exec of the same Query runs them again (it rewrites rows already handed out, and AWAIT launches the earlier rows' calls again)")
+}
+
+// varargsHoldSide: recv is (a field of) an element read by a range over the whole of a slice that is a parameter of the
+// function holding the goroutine (captured by the literal), and a call of that function in the builder f stores side into the
+// array of that variadic argument.
+func varargsHoldSide(recv ssa.Value, mc *ssa.MakeClosure, f *ssa.Function, side ssa.Value) bool {
+	v := recv
+	var ia *ssa.IndexAddr
+	for i := 0; i < 6 && ia == nil; i++ {
+		switch x := v.(type) {
+		case *ssa.FieldAddr:
+			v = x.X
+		case *ssa.UnOp:
+			v = x.X
+		case *ssa.IndexAddr:
+			ia = x
+		default:
+			return false
+		}
+	}
+	if ia == nil {
+		return false
+	}
+	if _, why := fullRangeIndex(ia); why != "" {
+		return false
+	}
+	// the slice: a load of a captured cell (or the captured value) bound to a parameter of the helper
+	sl := ia.X
+	if u, ok := sl.(*ssa.UnOp); ok {
+		sl = u.X
+	}
+	fv, ok := sl.(*ssa.FreeVar)
+	if !ok {
+		return false
+	}
+	lit, ok := mc.Fn.(*ssa.Function)
+	if !ok || lit.Parent() == nil {
+		return false
+	}
+	helper := lit.Parent()
+	var bound ssa.Value
+	for i, x := range lit.FreeVars {
+		if x == fv && i < len(mc.Bindings) {
+			bound = mc.Bindings[i]
+		}
+	}
+	var prm *ssa.Parameter
+	switch b := bound.(type) {
+	case *ssa.Parameter:
+		prm = b
+	case *ssa.Alloc:
+		for _, st := range storesTo(b) {
+			if p, ok := st.Val.(*ssa.Parameter); ok && len(storesTo(b)) == 1 {
+				prm = p
+			}
+		}
+	}
+	if prm == nil || prm.Parent() != helper {
+		return false
+	}
+	pi := -1
+	for i, p := range helper.Params {
+		if p == prm {
+			pi = i
+		}
+	}
+	found := false
+	allInstrs(f, func(_ *ssa.BasicBlock, in ssa.Instruction) {
+		ci, ok := in.(ssa.CallInstruction)
+		if !ok || ci.Common().StaticCallee() != helper || pi < 0 || pi >= len(ci.Common().Args) {
+			return
+		}
+		arr, ok := ci.Common().Args[pi].(*ssa.Slice)
+		if !ok {
+			return
+		}
+		al, ok := arr.X.(*ssa.Alloc)
+		if !ok || al.Referrers() == nil {
+			return
+		}
+		for _, r := range *al.Referrers() {
+			ea, ok := r.(*ssa.IndexAddr)
+			if !ok || ea.Referrers() == nil {
+				continue
+			}
+			for _, r2 := range *ea.Referrers() {
+				if st, ok := r2.(*ssa.Store); ok {
+					if st.Val == side {
+						found = true
+					}
+					if u, isU := st.Val.(*ssa.UnOp); isU && u.Op == token.MUL && cellHolds(u.X, side) {
+						found = true
+					}
+				}
+			}
+		}
+	})
+	return found
 }
